@@ -2,7 +2,7 @@
 # seedmatrix.sh [jobs-file]: run "<property-of-seed>/<n> <check property>" pairs (one per line) through
 # seedcheck.sh, two at a time; raw result lines go to /verif/seeded/RESULTS.raw
 jobs=${1:-/verif/seeded/jobs.txt}
-out=/verif/seeded/RESULTS.raw
+export out=/verif/seeded/RESULTS.raw
 run() { sd=$1; p=$2; r=$(/verif/tools/seedcheck.sh /verif/seeded/$sd $p 2>&1 | grep -v '^==' | tr '\n' ' ' | cut -c1-600); echo "$sd $p :: $r" >> $out; }
 export -f run
 grep -v '^#' $jobs | grep . | xargs -P 2 -L 1 bash -c 'run $0 $1'
